@@ -6,9 +6,11 @@ set -u
 PATCH="$(readlink -f "$1")"; shift
 PROPS="${*:-C03 C04 C05 C08 C09 C19 C20}"
 ROOT="$(cd "$(dirname "$0")/.." && pwd)"
-if [ -n "$(git -C /repo status --porcelain --untracked-files=no)" ]; then echo "/repo not clean"; exit 2; fi
-git -C /repo apply "$PATCH" || { echo "patch does not apply"; exit 2; }
-trap 'git -C /repo checkout -- . ' EXIT
+# inside `vp run --with-repo` the snapshot of /repo is used (sim/Cargo.toml must point at it)
+REPO="${VP_RUN_REPO:-/repo}"
+if [ "$REPO" = /repo ] && [ -n "$(git -C /repo status --porcelain --untracked-files=no)" ]; then echo "/repo not clean"; exit 2; fi
+(cd "$REPO" && git apply "$PATCH") || { echo "patch does not apply"; exit 2; }
+trap 'cd "$REPO" && git apply -R "$PATCH"' EXIT
 for p in $PROPS; do
   out=$("$ROOT/check" "$p" quick 2>&1); rc=$?
   nv=$(echo "$out" | grep -c '^VIOLATION')
